@@ -209,7 +209,7 @@ def make_jobs(ctx: core.Ctx, n_res: int, n_big: int, n_cmp: int, n_tr: int) -> l
                      "plot_seed": int(rng.integers(1, 2**31 - 1))})
     for k in range(n_cmp):
         jobs.append({"stage": "cmp", "seed": int(rng.integers(1, 2**31 - 1)), "n": int(rng.integers(20, 61)),
-                     "filter": k % 2 == 0, "window": (None, 1)[(k // 2) % 2], "M": float(rng.uniform(50.0, 3000.0)),
+                     "filter": k % 2 == 0, "window": (None, 1, 5, 9)[(k // 2) % 4], "M": float(rng.uniform(50.0, 3000.0)),
                      "tau": float(rng.uniform(30.0, 900.0)), "p_initial": P_INITIAL})
     for k in range(n_tr):
         jobs.append({"stage": "transform", "seed": int(rng.integers(1, 2**31 - 1)), "n": 400})
@@ -347,7 +347,7 @@ def run(ctx: core.Ctx) -> None:
         "(level 0 of an IdealReservoir)",
         "comparison figure: simulated recovery compared with SinglePhaseReservoir(80, pf, p_i, FlowProperties(pvt, p_i))"
         ".simulate(time/tau, pf).recovery_factor() to 1e-12 absolute; p_initial = 5000 psi, Haynesville table; smoothing "
-        "windows None and 1 only (larger windows belong to C18)",
+        "comparison figure: exact stage with windows None and 1, recorded executions with windows None, 1, 5, 9 (the pressure panel and the simulated curve must use the smoothed series)",
         "transform pair on floats: 0 and [1e-12, 1e12] (no overflow of the square); data -> display -> data through "
         "ax.transData is judged relative to the axis range (display coordinates are affine images in float64)",
     ]
@@ -361,6 +361,6 @@ def run(ctx: core.Ctx) -> None:
                                                          and r["rescale"]).items() if k != "levels"}})
     ctx.sample({"exported_case": next(r for r in recs if r["tag"] == "TRANSFORM" and r["n"] == 4)})
     if ctx.quick:
-        stage_trace(ctx, make_jobs(ctx, n_res=16, n_big=3, n_cmp=4, n_tr=4))
+        stage_trace(ctx, make_jobs(ctx, n_res=16, n_big=3, n_cmp=8, n_tr=4))
     else:
         stage_trace(ctx, make_jobs(ctx, n_res=480, n_big=64, n_cmp=64, n_tr=64))
